@@ -180,7 +180,8 @@ class Ctx:
         res["postcondition_false"] = bool(re.search(r"[Pp]ostcondition.*(is false|violated)", out))
         res["completed"] = "Model checking completed" in out or "Finished in" in out
         res["error"] = None
-        if ("Error:" in out and not res["violated"] and not res["postcondition_false"]) or not m and "-simulate" not in args:
+        if ("Error:" in out and not res["violated"] and not res["postcondition_false"]) or (not m and "-simulate" not in args
+                                                                                                        and "is violated by the initial state" not in out):
             em = re.search(r"Error: .*(?:\n.*){0,6}", out)
             res["error"] = em.group(0) if em else out[-1500:]
         return res
